@@ -19,6 +19,24 @@ PROPS = {
     },
 }
 
+PROPS["C02"] = {
+    "level": "exploration",
+    "rule": ("each run opens k in 2..6 logical connections (two channels, one physical session) in driver-chosen order with modes "
+             "active / idle / paused-application-reader / paused-target-reader, payloads, write partitions, socket-buffer bounds, delivery "
+             "chunking and (1 run in 8) a write-completion stall on the client's physical link while a stream is being opened; "
+             "non-trivial = all non-paused connections completed while the others were still open (>= 2 open at once); distinct = schedule shapes"),
+    "probes": ["concurrent_worlds_completed", "fault_write_stall_armed", "fault_segmentation"],
+    "technique": "deterministic simulation: seeded search over interleavings of k concurrent logical connections, per-connection PRF attribution, bounded-progress oracle",
+    "level_text": ("Seeded exploration of interleavings: the driver decides the order of opens, writes, pauses and every delivery across k connections sharing "
+                   "one session; isolation is decided by per-connection PRF streams (a foreign byte is attributed to its owner), independence by "
+                   "requiring every non-paused connection to complete within 30 simulated minutes and never sit 60 s with nothing deliverable while others are open/idle/paused."),
+    "level_note": "Trusts simify, simnet socket semantics (bounded buffers give real back-pressure), sampling. Paused readers hold <= 512 KiB, well under the multiplexer's shared 4 MiB buffer the property excludes.",
+    "tiers": {
+        "quick": {"runs": 1200, "chunk": 100, "shrink_s": 40},
+        "thorough": {"runs": 40000, "chunk": 200, "shrink_s": 120},
+    },
+}
+
 PENDING = "check under construction in this round; see DESIGN.md section 5 for the planned simulation"
 NOT_APPLICABLE = [
     {"property_id": "C08", "reason": "pure function of one byte string (codec Encode/Decode): no schedule, clock, fault or second party for a simulator to control; see DESIGN.md section 6"},
